@@ -74,6 +74,7 @@ type ldProc struct {
 	LivePort      string         `json:"live_port,omitempty"`
 	Namespace     string         `json:"namespace,omitempty"`
 	LaunchTimeout int            `json:"launch_timeout,omitempty"`
+	Disabled      bool           `json:"disabled,omitempty"` // disabled: true - still loaded, rendered and given its defaults (it can be started later)
 	NameKey       string         `json:"name_key,omitempty"` // a "name:" key inside the process block (the map key is the name)
 	Shadowed      bool           `json:"shadowed,omitempty"` // named like a replica of another process: which one survives is not judged, only that loads agree and the replicas are right
 }
@@ -127,6 +128,9 @@ func (sp *ldSpec) yaml() string {
 		}
 		if p.NameKey != "" {
 			fmt.Fprintf(&b, "    name: %s\n", yq(p.NameKey))
+		}
+		if p.Disabled {
+			b.WriteString("    disabled: true\n")
 		}
 		if p.LaunchTimeout != 0 {
 			fmt.Fprintf(&b, "    launch_timeout_seconds: %d\n", p.LaunchTimeout)
@@ -221,6 +225,7 @@ func genLdSpec(rng *rand.Rand) ldSpec {
 		if rng.Intn(12) == 0 {
 			p.NameKey = []string{"other", "q0", "q1-0", ""}[rng.Intn(4)]
 		}
+		p.Disabled = rng.Intn(5) == 0
 		sp.Procs = append(sp.Procs, p)
 	}
 	for _, p := range sp.Procs {
